@@ -29,6 +29,10 @@ CHECKS = {
    text="Bounded symbolic model checking of the real listing pipelines end to end (ListRepos, ListBundles, ListBundlesApply, ListLabels, ListLabelsApply, ListDiamonds, ListSplits with fetchKeys, basenameKeyFilter, mergeKeys, distributeKeys, fetch*Batch, get*Async, the descriptor downloads and sort.Sort on the model slices) over an in-memory object store: repositories {a, a-b, ab, b} in every combination; in repo r (next to r2, whose name extends it) three bundles each absent / committed / leftover of an interrupted upload, three labels in every combination, two diamonds each absent / running / running+done, the first with two splits (one named split-2) each absent / running / running+done and each with two split file lists - for every page size from 1 to the number of keys + 1 and list concurrency 1..2 the result is exactly the existing objects of that kind and repository, each once, a bundle without descriptor is skipped, diamonds and splits come back in their latest state, bundles in key order. Known findings C07-F2, C07-F3 (order of labels / prefix-named repositories).",
    note="Trusted: go/ssa, gosmt interpreter (natively cross-validated), cooperative goroutine/channel model (one schedule), yaml.v2 as round-tripping opaque documents, in-memory store with GCS listing semantics. Outside: more objects than the stated universe, page sizes above it, concurrency above 2, versioned label listing, interruption through the done channel.",
    design="DESIGN.md §6 C07"),
+ "C08": dict(
+   text="Bounded symbolic model checking of the real label code (Label.UploadDescriptor, Label.DownloadDescriptor, DeleteLabel, ListLabels with its key scan and getLabelAsync, GetArchivePathToLabel / GetArchivePathComponents) over in-memory stores: every history of 2 (thorough 3) operations, each an assignment or deletion over labels {v1, v1-rc} x repositories {r, r2} x bundles {B1, B2}, with Label values reused between operations - afterwards getting each label returns the bundle it was last set to or not-found, listing each repository returns exactly its live labels with their last bundle, deleting succeeds iff the label exists, and every operation leaves the metadata store (bundles, repos) and every other label object byte-identical; and for every label name of 1..2 arbitrary bytes, a name that UploadDescriptor accepts can afterwards be resolved and listed under that name (known finding C08-F1 for names containing '/').",
+   note="Trusted: go/ssa, gosmt interpreter (natively cross-validated), yaml.v2 as round-tripping opaque documents, in-memory stores, one cooperative schedule of the listing goroutines. Outside: versioned label history, histories longer than 3, names longer than 2 bytes, contributor validation, the CLI layer.",
+   design="DESIGN.md §6 C08"),
  "C11": dict(
    text="Bounded symbolic model checking of the real diamond merge (Diamond.mergeSplits with its merger goroutine, fileIndex.Download/unpack/downloadAll/downloadIndex, mergeEntryToFilePacked, GenerateConflictPath/GenerateCheckpointPath, go-immutable-radix from source) against a reference written from the statement: 2 splits x 2 paths with symbolic presence, symbolic 1-byte content hashes and symbolic distinct upload seconds, and 3 splits x 1 path (split k uploaded at second k), in all 4 conflict modes and for every arrival order of the split index files - the main tree holds exactly the uploaded paths with the latest version of each, conflict/checkpoint mode files every other distinct version under .conflicts|.checkpoints/<uploading split>/<path> with that split's content and nothing else, ignore mode adds nothing, forbid mode fails iff two splits disagree on a path, and the HasConflicts/HasCheckpoints flags match. Thorough adds 3 splits x 2 paths with one index file per (split, path). Known finding C11-F1.",
    note="Trusted: go/ssa, gosmt interpreter (natively cross-validated), cooperative goroutine/channel model with file-list download concurrency 1 (arrival order = the solver-chosen permutation), yaml.v2 as round-tripping opaque documents, in-memory metadata store. Outside: more than 3 splits, equal upload times, the single-split == plain upload clause, fileIndex.pack's time stamping, implCommit around the merge.",
